@@ -148,7 +148,7 @@ impl Ports {
     }
 }
 
-const ENTRIES: &[&str] = &["127.0.0.1", "127.0.0.5", "127.0.0.1/32", "127.0.0.0/30", "127.0.1.0/24", "127.1.0.0/16", "127.0.1.128/25", "10.0.0.0/8", "192.168.7.9", "::1/128", "127.0.0.0/8", "0.0.0.0/0"];
+const ENTRIES: &[&str] = &["127.0.0.1", "127.0.0.5", "127.0.0.1/32", "127.0.0.0/30", "127.0.1.0/24", "127.1.0.0/16", "127.0.1.128/25", "10.0.0.0/8", "192.168.7.9", "::1/128", "fd00::/8", "127.0.0.0/8", "0.0.0.0/0"];
 const PEERS: &[[u8; 4]] = &[[127, 0, 0, 1], [127, 0, 0, 2], [127, 0, 0, 3], [127, 0, 0, 4], [127, 0, 0, 5], [127, 0, 1, 0], [127, 0, 1, 127], [127, 0, 1, 128], [127, 0, 1, 255], [127, 0, 2, 0], [127, 1, 0, 0], [127, 1, 255, 255], [127, 2, 0, 0], [127, 200, 3, 4]];
 
 /// Reference for IPv6 entries: (network, mask) — None for entries that cannot match an IPv6 peer.
@@ -306,6 +306,7 @@ pub fn run(a: &Args) -> Option<Report> {
     let exporters = a.budget(24, 2000);
     let runtime = tokio::runtime::Builder::new_multi_thread().worker_threads(2).enable_all().build().expect("tokio runtime");
     let mut ports = Ports::new(a, 0);
+    let mut exporter_index = 0usize;
     for _ in 0..exporters {
         // allowlist
         let nent = *r.pick(&[0usize, 1, 1, 2, 3, 5]);
@@ -313,6 +314,16 @@ pub fn run(a: &Args) -> Option<Report> {
         for _ in 0..nent {
             list.push(r.pick(ENTRIES).to_string());
         }
+        if exporter_index == 0 {
+            // an allowlist made of IPv6 networks only on an IPv4 listener: no IPv4 peer is inside any of them
+            list = if r.chance(1, 2) { vec!["::1/128".to_string()] } else { vec!["fd00::/8".to_string(), "2001:db8::/32".to_string()] };
+        }
+        // the second exporter of every shard serves a large registry (allowlist as drawn, loopback peer judged by it)
+        let big_body = exporter_index == 1;
+        if big_body && r.chance(2, 3) {
+            list.clear();
+        }
+        exporter_index += 1;
         let port = ports.pick();
         let dst = SocketAddrV4::new(Ipv4Addr::new(127, 0, 0, 1), port);
         let mut b = PrometheusBuilder::new().with_http_listener(SocketAddr::V4(SocketAddrV4::new(Ipv4Addr::new(0, 0, 0, 0), port)));
@@ -381,6 +392,32 @@ pub fn run(a: &Args) -> Option<Report> {
         let counter = rec.register_counter(&Key::from_name("scraped_total"), &MD);
         let value = Arc::new(AtomicU64::new(0));
         let mut failed = false;
+        if big_body {
+            // a rendering of several hundred KiB, requested with Connection: close by a client that only starts reading
+            // after a pause: the whole body must arrive (status 403 with an empty body for a peer outside the list)
+            for i in 0..3000 {
+                rec.register_counter(&Key::from_parts("filler_metric_with_a_rather_long_name_total", vec![metrics::Label::new("series", format!("{:05}-{}", i, "x".repeat(40)))]), &MD).increment(1);
+            }
+            let peer = Ipv4Addr::new(127, 0, 0, 1);
+            let res = (|| -> Result<Resp, String> {
+                let mut s = connect_from(peer, dst).map_err(|e| format!("connect: {}", e))?;
+                s.set_read_timeout(Some(Duration::from_secs(10))).ok();
+                s.write_all(b"GET /metrics HTTP/1.1\r\nHost: verif\r\nConnection: close\r\n\r\n").map_err(|e| format!("write: {}", e))?;
+                std::thread::sleep(Duration::from_millis(300));
+                let mut buf = Vec::new();
+                s.read_to_end(&mut buf).map_err(|e| format!("read after {} bytes: {}", buf.len(), e))?;
+                parse_response(&buf)
+            })();
+            let exp = allowed_ref(&list, peer);
+            match res {
+                Ok(resp) if exp && resp.status == 200 && resp.body.len() > 200_000 && resp.body.ends_with(b"\n") => {}
+                Ok(resp) if !exp && resp.status == 403 && resp.body.is_empty() => {}
+                other => {
+                    rep.violation(if exp { "C18:large-body-not-delivered-whole" } else { "C18:outside-peer-not-forbidden" }, jo! {"what" => "a scrape of a large registry by a client that starts reading 300 ms after sending its request did not get the expected complete response", "expected" => if exp { "200 with the whole rendering" } else { "403 with an empty body" }, "got" => match &other { Ok(r) => format!("status {} with {} body bytes", r.status, r.body.len()), Err(e) => e.clone() }, "allowlist" => J::A(list.iter().map(|e| J::s(e.clone())).collect())});
+                    failed = true;
+                }
+            }
+        }
         let nconn = 20 + r.usize(40);
         let desc = jo! {"allowlist" => J::A(list.iter().map(|e| J::s(e.clone())).collect())};
         for ci in 0..nconn {
